@@ -1,10 +1,10 @@
 SPECIFICATION Spec
 CONSTANTS
-  Node = {"n1", "n2", "n3"}
+  Node = {"n1", "n2"}
   Byz = {}
   T10 = 670
-  MaxHeight = 1
-  MaxRound = 1
+  MaxHeight = 2
+  MaxRound = 0
 INVARIANTS TypeOK NoHonestEquivocation VoteproofAgreement ChainAgreement SavedOnlyAgreed ChainLinked OneProposalPerPoint
 PROPERTIES LastMonotone BoxLastMonotone
 CHECK_DEADLOCK FALSE
